@@ -104,12 +104,14 @@ class LinearInterpolator(NNBase):
         predictions = np.einsum('ij,ijk->ik', normalized_pts,
                                 normal[:, :self._indep_dims, :]) - pc
 
-        # Check to see if there are any collinear points and replace them
-        n0 = np.where(normal[:, -1, :] == 0)
-        predictions[n0, :] = self._tv[nloc[0, n0], :]
+        # The neighbors are collinear when the (unit) normal has no component along the value
+        # axis, up to roundoff in the svd. The plane is then undefined: use the nearest neighbor.
+        vertical = np.abs(normal[:, -1, :]) < 1e-12
+        rows, cols = np.where(vertical)
+        predictions[rows, cols] = self._tv[nloc[rows, 0], cols]
 
         # Finish computation for the good normals
-        n = np.where(normal[:, -1, :] != 0)
+        n = np.where(~vertical)
         predictions[n] /= -normal[:, -1, :][n]
 
         # Rescale to original units
@@ -152,9 +154,11 @@ class LinearInterpolator(NNBase):
             ndist, nloc = self._KData.query(normPredPts.real, dims)
 
         normal, pc = self._find_hyperplane(nloc)
-        if np.any(normal[:, -1, :]) == 0:
-            return gradient
-        gradient[:] = (-normal[:, :-1, :] / normal[:, -1, :]).squeeze().T
+        # Collinear neighbors (see __call__): the prediction is the nearest neighbor's value.
+        vertical = np.abs(normal[:, -1, :]) < 1e-12
+        safe = np.where(vertical, 1.0, normal[:, -1, :])
+        gradient[:] = np.swapaxes(-normal[:, :-1, :] / safe[:, np.newaxis, :], 1, 2)
+        gradient[vertical] = 0.
 
         grad = gradient * (self._tvr[:, np.newaxis] / self._tpr)
 
